@@ -139,8 +139,53 @@ def job_stencils():
             Hj = Q.of(out[j])
             lame = Q(1) - Fr(2, 3)
             want = (Fr(4, 3) * rj * rj / (Q(1) + Fr(4, 3)) ** 2) * ((lame / rj) * 2 * yj).abs2() - Fr(4, 3) * rj * (true_grad.conjugate() * 2 * yj).real + Fr(1, 3) * (2 * yj).abs2()
+            def rps(md, j=j, deg=deg):
+                rr = [0.8, 1.0, 1.35]
+                c0, c1, c2 = 0.7 + 0.2j, -0.4 + 0.5j, (0.3 - 0.1j) if deg == 2 else 0j
+                ys = [c0 + c1 * (x - 1.0) + c2 * (x - 1.0) ** 2 for x in rr]
+                rowsv = {'a': [{'c': [v.real, v.imag]} for v in ys] + [{'c': [0.0, 0.0]}] * 15, 'dtype': 'complex128', 'shape': [6, 3]}
+                one = {'a': [{'c': [1.0, 0.0]}] * 3, 'dtype': 'complex128'}
+                r_ = replay.call1('TidalPy.radial_solver.sensitivity', 'sensitivity_to_shear', rowsv, replay.arr(rr), one, one, 2)
+                if not r_['ok']:
+                    return True, 'real sensitivity_to_shear raised %s' % r_.get('error')
+                g = c1 + 2 * c2 * (rr[j] - 1.0)
+                w_ = (4. / 3.) * rr[j] ** 2 / (1 + 4. / 3.) ** 2 * abs((1. / 3.) / rr[j] * 2 * ys[j]) ** 2 - (4. / 3.) * rr[j] * (g.conjugate() * 2 * ys[j]).real + abs(2 * ys[j]) ** 2 / 3.
+                return abs(r_['value'][j] - w_) > 1e-9 * (abs(w_) + 1), 'real sensitivity_to_shear on r=%r, y1 degree %d: slice %d gives %r, with the exact gradient %r' % (rr, deg, j, r_['value'][j], w_)
             results.append(discharge(Obligation('stencil %s is exact for degree-%d y1 on a non-uniform grid (kernel value equals the one with the true gradient)' % (name, deg), eq_goal(Hj, want), pos,
-                                                replay=lambda md: (True, 'finite-difference stencil not exact'), key='stencil:%s:%d' % (name.split()[0], deg))))
+                                                replay=rps, key='stencil:%s:%d' % (name.split()[0], deg))))
+    # the same three stencils inside sensitivity_to_bulk (its own copy of the gradient code): y2 = y3 = 0, mu = K = 1
+    fb, _ = loader.load_py(SENS, ['sensitivity_to_bulk'], {'np': NP})
+    for deg, coeffs in ((2, (a0, a1, a2)), (1, (a0, a1, Q(0)))):
+        y1 = [coeffs[0] + coeffs[1] * (x - r0) + coeffs[2] * (x - r0) * (x - r0) for x in rad]
+        rows = np.empty((6, 3), dtype=object).view(SArr)
+        for i in range(6):
+            for j in range(3):
+                rows[i, j] = y1[j] if i == 0 else Q(0)
+        outb = fb['sensitivity_to_bulk'](rows, obj_array(rad), obj_array([Q(1)] * 3), obj_array([Q(1)] * 3), 2)
+        for j, name in enumerate(('forward (first slice)', 'central (interior)', 'backward (last slice)')):
+            if deg == 2 and j != 1:
+                continue
+            yj, rj = y1[j], rad[j]
+            true_grad = coeffs[1] + 2 * coeffs[2] * (rj - r0)
+            lame = Q(1) - Fr(2, 3)
+            wantb = (rj * rj / (Q(1) + Fr(4, 3)) ** 2) * ((lame / rj) * 2 * yj).abs2() + 2 * rj * (true_grad.conjugate() * 2 * yj).real + (2 * yj).abs2()
+
+            def rpb(md, j=j, deg=deg):
+                # real (numba) function on a concrete non-uniform grid with a quadratic / linear y1
+                import cmath
+                rr = [0.8, 1.0, 1.35]
+                c0, c1, c2 = 0.7 + 0.2j, -0.4 + 0.5j, (0.3 - 0.1j) if deg == 2 else 0j
+                ys = [c0 + c1 * (x - 1.0) + c2 * (x - 1.0) ** 2 for x in rr]
+                rowsv = {'a': [{'c': [v.real, v.imag]} for v in ys] + [{'c': [0.0, 0.0]}] * 15, 'dtype': 'complex128', 'shape': [6, 3]}
+                one = {'a': [{'c': [1.0, 0.0]}] * 3, 'dtype': 'complex128'}
+                r_ = replay.call1('TidalPy.radial_solver.sensitivity', 'sensitivity_to_bulk', rowsv, replay.arr(rr), one, one, 2)
+                if not r_['ok']:
+                    return True, 'real sensitivity_to_bulk raised %s' % r_.get('error')
+                g = c1 + 2 * c2 * (rr[j] - 1.0)
+                want = (rr[j] ** 2 / (1 + 4. / 3.) ** 2) * abs((1. / 3.) / rr[j] * 2 * ys[j]) ** 2 + 2 * rr[j] * (g.conjugate() * 2 * ys[j]).real + abs(2 * ys[j]) ** 2
+                return abs(r_['value'][j] - want) > 1e-9 * (abs(want) + 1), 'real sensitivity_to_bulk on r=%r, y1 degree %d: slice %d gives %r, with the exact gradient %r' % (rr, deg, j, r_['value'][j], want)
+            results.append(discharge(Obligation('bulk kernel: stencil %s is exact for degree-%d y1 on a non-uniform grid' % (name, deg), eq_goal(Q.of(outb[j]), wantb), pos,
+                                                replay=rpb, key='stencil-bulk:%s:%d' % (name.split()[0], deg))))
     results.append(reach_twin('stencils', pos))
     return {'results': results, 'encoded': loader.ENCODED, 'label': 'stencils'}
 
